@@ -69,6 +69,16 @@ pub enum Mode {
         #[serde(default)]
         byte_variants: Vec<(String, usize, u8, u8)>,
     },
+    /// drop storm: the workers are stalled (a descheduled node) while several dispatcher threads hand tens of
+    /// thousands of frames for one worker to a pool with a tiny queue; afterwards the counters must equal the outcomes
+    Storm {
+        cfg: PoolCfg,
+        #[serde(with = "crate::pkt::hexser")]
+        frame: Vec<u8>,
+        dispatchers: usize,
+        per_dispatcher: usize,
+        schedule: u64,
+    },
 }
 
 #[derive(Clone, Debug, Serialize, Deserialize)]
@@ -433,6 +443,15 @@ impl Prop for C18 {
 
     fn generate(r: &mut Rng, tier: Tier, _idx: u64) -> Scn {
         let kind = *r.pick(&PoolKind::ALL);
+        if r.chance(1, 160) {
+            // drop storm: totals that cross 2^16 and 2^17 drops on one worker while two or three dispatchers are active
+            let dispatchers = r.urange(2, 3);
+            let total = *r.pick(&[70_000usize, 90_000, 140_000]);
+            let cfg = PoolCfg { kind, workers: r.urange(1, 3), queue: *r.pick(&[1usize, 2, 16]), batch: *r.pick(&[1usize, 16]), timeout_ms: 10, cap: 64, with_db: false, filter: None };
+            let h = tcp::Host::random(r);
+            let seg = tcp::data(&h, Endpoint::v4(10, 78, r.u8(), 1, 40000), Endpoint::v4(10, 78, 0, 2, 443), 1001, 5001, vec![], 0, 0, pkt::ACK);
+            return Scn { mode: Mode::Storm { cfg, frame: pkt::frame(&seg, Framing::Ethernet), dispatchers, per_dispatcher: total / dispatchers + r.usize_below(50), schedule: r.next_u64() } };
+        }
         if r.chance(1, 4) {
             // affinity scenario
             let v6 = r.chance(1, 3);
@@ -563,6 +582,85 @@ impl Prop for C18 {
                   }
                 }
                 st.nontrivial = seen_q && seen_d;
+                Ok(())
+            }
+            Mode::Storm { cfg, frame, dispatchers, per_dispatcher, schedule } => {
+                // (queued, dropped, stats at quiescence, error)
+                type Out = (u64, u64, Option<pool::StatsSnap>, Option<String>);
+                let slot: Arc<std::sync::Mutex<Out>> = Arc::new(std::sync::Mutex::new((0, 0, None, None)));
+                let (slot2, cfg2, frame2, nd, per) = (slot.clone(), cfg.clone(), frame.clone(), *dispatchers, *per_dispatcher);
+                pool::run_scheduled_steps(*schedule, Sched::Random, 1, 200_000_000, move || {
+                    verif_chan::evlog_reset();
+                    verif_chan::reset_ids();
+                    verif_chan::stall(true);
+                    let mut o: Out = (0, 0, None, None);
+                    match pool::make_pool(&cfg2) {
+                        Err(e) => o.3 = Some(e),
+                        Ok((p, recv)) => {
+                            let consumer = shuttle::thread::spawn(move || while recv().is_some() {});
+                            let hs: Vec<_> = (0..nd)
+                                .map(|_| {
+                                    let (p, f) = (p.clone(), frame2.clone());
+                                    shuttle::thread::spawn(move || {
+                                        let (mut q, mut d) = (0u64, 0u64);
+                                        for _ in 0..per {
+                                            if p.dispatch(f.clone()) {
+                                                q += 1;
+                                            } else {
+                                                d += 1;
+                                            }
+                                        }
+                                        (q, d)
+                                    })
+                                })
+                                .collect();
+                            for h in hs {
+                                match h.join() {
+                                    Ok((q, d)) => {
+                                        o.0 += q;
+                                        o.1 += d;
+                                    }
+                                    Err(_) => o.3 = Some("dispatcher thread panicked".to_string()),
+                                }
+                            }
+                            // every dispatch call has returned: the counters are at rest
+                            o.2 = Some(p.stats());
+                            verif_chan::stall(false);
+                            drop(p);
+                            let _ = consumer.join();
+                        }
+                    }
+                    *slot2.lock().unwrap() = o;
+                });
+                let (queued, dropped, stats, err) = slot.lock().unwrap().clone();
+                if let Some(e) = err {
+                    return Err(Violation::new("harness-error", "", e));
+                }
+                let stats = stats.ok_or_else(|| Violation::new("harness-error", "", "storm execution did not finish".to_string()))?;
+                st.evals = 1;
+                st.packets += (dispatchers * per_dispatcher) as u64;
+                st.fault("workers_stalled");
+                st.fault_n("queue_full", dropped);
+                st.probe_n("drop_storm_drops", dropped);
+                st.ev_u64(queued);
+                st.ev_u64(dropped);
+                let key = format!("{}:storm", cfg.kind.name());
+                if queued + dropped != (dispatchers * per_dispatcher) as u64 {
+                    return Err(Violation::new("harness-error", "", format!("{} outcomes for {} dispatch calls", queued + dropped, dispatchers * per_dispatcher)));
+                }
+                if stats.dropped != dropped {
+                    return Err(Violation::new("stats-dropped", key, format!("{} dispatchers x {} frames for one stalled worker: stats().total_dropped = {} but {} dispatch calls returned Dropped", dispatchers, per_dispatcher, stats.dropped, dropped)));
+                }
+                // what total_dispatched counts differs per pool (queued frames for TCP, dispatch calls for HTTP and TLS)
+                let want_dispatched = if cfg.kind == PoolKind::Tcp { queued } else { queued + dropped };
+                if stats.dispatched != want_dispatched {
+                    return Err(Violation::new("stats-dispatched", key, format!("stats().total_dispatched = {} but the outcomes imply {} ({} queued, {} dropped)", stats.dispatched, want_dispatched, queued, dropped)));
+                }
+                let sum_wd: u64 = stats.workers.iter().map(|w| w.1).sum();
+                if sum_wd != dropped {
+                    return Err(Violation::new("stats-worker-dropped", key, format!("sum of per-worker dropped = {} but {} dispatch calls returned Dropped", sum_wd, dropped)));
+                }
+                st.nontrivial = queued > 0 && dropped > 0;
                 Ok(())
             }
             Mode::Affinity { kind, seg, variants, base_framing, all_patch, byte_variants, .. } => {
@@ -708,6 +806,14 @@ fn shrink_impl(s: &Scn) -> Vec<Scn> {
                     let mut c = cfg.clone();
                     c.workers -= 1;
                     out.push(Scn { mode: Mode::Accounting { cfg: c, dispatchers: dispatchers.clone(), schedules: schedules.clone(), iters, sched: *sched, stats_calls: *stats_calls, consumer_gone_after: *consumer_gone_after, shutdown_after_yields: *shutdown_after_yields } });
+                }
+            }
+            Mode::Storm { cfg, frame, dispatchers, per_dispatcher, schedule } => {
+                if *per_dispatcher > 1000 {
+                    out.push(Scn { mode: Mode::Storm { cfg: cfg.clone(), frame: frame.clone(), dispatchers: *dispatchers, per_dispatcher: per_dispatcher / 2, schedule: *schedule } });
+                }
+                if *dispatchers > 2 {
+                    out.push(Scn { mode: Mode::Storm { cfg: cfg.clone(), frame: frame.clone(), dispatchers: dispatchers - 1, per_dispatcher: *per_dispatcher, schedule: *schedule } });
                 }
             }
             Mode::Affinity { kind, seg, variants, base_framing, must_differ_ok, all_patch, byte_variants } => {
